@@ -44,7 +44,7 @@ CHECKS = {
         "text": "Seeded deterministic simulation of TrieDict histories (1-4 writer clients, readers, live iterator tasks interleaved by a seeded scheduler; faults: key iterable failing after k tokens, unhashable token at position k, iterator cancellation) compared operation by operation and by a full key-universe sweep after every mutating event against a dict reference model. Sampled evidence over millions of short histories on tiny alphabets, not proof; failures are minimised (ddmin over the explicit event list) and replay exactly.",
         "note": "Trusted: the dict reference model (30 lines), CPython. Operations are atomic (no thread safety is documented). Only __setitem__ mutates in C10 histories.",
         "design": "DESIGN.md §4 C10",
-        "technique": "deterministic simulation with fault injection: seeded schedules of client/iterator tasks + caller-side faults, dict reference model, ddmin-minimised replay",
+        "technique": "deterministic simulation with fault injection: seeded schedules of client/iterator tasks on 1-2 instances + caller-side faults with retries, dict reference model, fresh-process reproduced and ddmin-minimised replay",
     },
 }
 
